@@ -31,7 +31,13 @@ func (g *G) CDXClassNode(id string) *sbom.Node {
 		n.Copyright = g.plain()
 	}
 	if on() {
-		n.Licenses = []string{Pick(g, []string{"MIT", "Apache-2.0", "BSD-3-Clause"})}
+		lics := []string{"MIT", "Apache-2.0", "BSD-3-Clause", "GPL-2.0-only"}
+		g.R.Shuffle(len(lics), func(i, j int) { lics[i], lics[j] = lics[j], lics[i] })
+		k := 1
+		if g.Chance(0.3) {
+			k += 1 + g.Int(2)
+		}
+		n.Licenses = lics[:k]
 	}
 	if on() {
 		n.Hashes = map[int32]string{}
